@@ -1,7 +1,9 @@
 #!/usr/bin/env python3
 """Run the registered quick check of the attacked property against every seeded change:
 apply seeded/<id>/patch.diff to /repo, run the check, undo. Writes seeded/<id>/result.json.
-usage: tools/seeded_run.py [id ...]   (never leaves /repo modified)"""
+usage: tools/seeded_run.py [--worktree] [id ...]   (never leaves /repo modified)
+--worktree: apply the change in a scratch git worktree of /repo HEAD and point the check at it with FORML_REPO (used while
+other work is going on against /repo); default: apply to /repo itself and undo."""
 import json
 import os
 import subprocess
@@ -17,8 +19,10 @@ def sh(cmd, **kw):
 
 
 def main():
-    ids = sys.argv[1:] or sorted(d for d in os.listdir(os.path.join(ROOT, 'seeded')) if os.path.isdir(os.path.join(ROOT, 'seeded', d)))
-    if sh(f'git -C {REPO} status --porcelain --untracked-files=no').stdout.strip():
+    worktree = '--worktree' in sys.argv
+    args = [a for a in sys.argv[1:] if not a.startswith('--')]
+    ids = args or sorted(d for d in os.listdir(os.path.join(ROOT, 'seeded')) if os.path.isdir(os.path.join(ROOT, 'seeded', d)))
+    if not worktree and sh(f'git -C {REPO} status --porcelain --untracked-files=no').stdout.strip():
         print('refusing: /repo has local modifications')
         return 2
     summary = []
@@ -26,24 +30,35 @@ def main():
         d = os.path.join(ROOT, 'seeded', sid)
         meta = json.load(open(os.path.join(d, 'meta.json')))
         pid = meta['property']
-        r = sh(f'git -C {REPO} apply {d}/patch.diff')
+        target = REPO
+        if worktree:
+            target = f'/tmp/seedrun-{sid}'
+            sh(f'git -C {REPO} worktree remove --force {target}')
+            sh(f'git -C {REPO} worktree add -q --detach {target} HEAD')
+        r = sh(f'git -C {target} apply {d}/patch.diff')
         if r.returncode:
+            if worktree:
+                sh(f'git -C {REPO} worktree remove --force {target}')
             summary.append((sid, pid, 'patch does not apply: ' + r.stderr.strip()[:100]))
             continue
         t0 = time.time()
         try:
-            r = sh(f'/venv/bin/python harness/check.py {pid} --tier quick', cwd=ROOT, timeout=1800)
+            r = sh(f'/venv/bin/python harness/check.py {pid} --tier quick', cwd=ROOT, timeout=1800,
+                   env=dict(os.environ, FORML_REPO=target))
             lines = [ln for ln in r.stdout.split('\n') if ln.startswith(('VIOLATION', 'OK ', 'KNOWN-FINDING'))]
             rc = r.returncode
         except subprocess.TimeoutExpired:
             lines, rc = ['timeout'], 2
         finally:
-            sh(f'git -C {REPO} checkout -- .')
+            if worktree:
+                sh(f'git -C {REPO} worktree remove --force {target}')
+            else:
+                sh(f'git -C {REPO} checkout -- .')
         viol = [ln for ln in lines if ln.startswith('VIOLATION')]
         res = {'property': pid, 'exit': rc, 'caught': rc == 1 and bool(viol),
                'with_failing_input': any('no-failing-input-found' not in ln for ln in viol),
                'violation_lines': [ln[:300] for ln in viol], 'wall_s': round(time.time() - t0, 1),
-               'verif_commit': sh('git rev-parse --short HEAD', cwd=ROOT).stdout.strip()}
+               'mode': 'worktree+FORML_REPO' if worktree else 'applied to /repo', 'verif_commit': sh('git rev-parse --short HEAD', cwd=ROOT).stdout.strip()}
         json.dump(res, open(os.path.join(d, 'result.json'), 'w'), indent=1)
         summary.append((sid, pid, 'CAUGHT' if res['caught'] else f'MISSED (exit {rc})',
                         'input' if res['with_failing_input'] else 'no-input'))
